@@ -213,7 +213,9 @@ def run(ctx):
               'throwing sets and completing worker random, interleaving of queue LOAD/CAS, f entry/exit, exchange/store, '
               'decrement chosen by the controller; TRACE: the real set_value (spawn loop, register_work, local part, countdown) on real pools of 1,2,3,4,6 workers, n <= 200, '
               'atomic accesses serialised by a token passed at the hooks, logged order replayed by lock_trace; PROC: ex::bulk on the real pool for several worker counts, 8 shape types, '
-              '4 predecessor kinds, throwing sets, plus the generic fallback. A case is non-trivial when it has n > 0 '
+              '4 predecessor kinds, throwing sets, plus the generic fallback; POOL: ex::bulk on thread_pool_scheduler{&pool} for a default pool of 1-2 PUs and a second '
+              'pool of 2-3 PUs (resource partitioner), predecessor completing on each worker of the target pool (continues_on with / without hint, hinted schedule, '
+              'transfer_just), calls of 20-150 us, same monitors (signatures C11:pool:*); the TRACE tie also runs on such second pools. A case is non-trivial when it has n > 0 '
               '(DIFF), >= 2 workers interleave (LOCKSTEP), or n > W (PROC); distinct = distinct input lines')
     quick = ctx.tier == 'quick'
     ctx.build_pika()
@@ -325,11 +327,14 @@ def run(ctx):
             r.hits.append(Hit('tie', 'C11:trace_harness', 'trace harness does not compile against the source: %s' % str(e)[-700:],
                               {'harness': 'c11_trace'}))
         if h:
-            ncs = 50 if quick else 700
-            for W in (1, 2, 3, 4, 6):
+            # (W, D): D = 0 the default pool with W workers; D > 0 a second pool with W PUs behind a default pool with D PUs
+            # (global worker numbers D .. D+W-1, pool-local 0 .. W-1): signatures C11:pool:<monitor>
+            for (W, D) in ((1, 0), (2, 0), (3, 0), (4, 0), (6, 0), (2, 1), (3, 2), (3, 1)):
+                ncs = (50 if quick else 700) if D == 0 else (20 if quick else 250)
+                pre = 'trace' if D == 0 else 'pool'
                 start, lines = 0, []
                 for _ in range(6):
-                    rc, out = sh([h, str(ctx.seed), str(ncs), str(W), str(start)], timeout=600 if quick else 3000)
+                    rc, out = sh([h, str(ctx.seed), str(ncs), str(W), str(start), str(D)], timeout=600 if quick else 3000)
                     ls = out.split('\n')
                     lines += ls
                     if rc == 0:
@@ -338,10 +343,10 @@ def run(ctx):
                     for x in ls:
                         if x.startswith('CASE '):
                             last = x
-                    r.hits.append(Hit('monitor', 'C11:trace:crash_or_stuck',
-                                      'the real bulk operation on a %d-worker pool crashed or never completed (rc=%s) in [%s]: %s'
-                                      % (W, rc, last, ' | '.join(ls[-4:])[-400:]),
-                                      {'harness': 'c11_trace', 'args': [ctx.seed, ncs, W], 'case': last}))
+                    r.hits.append(Hit('monitor', 'C11:%s:crash_or_stuck' % pre,
+                                      'the real bulk operation on a %d-worker pool%s crashed or never completed (rc=%s) in [%s]: %s'
+                                      % (W, ' (second pool behind a default pool of %d)' % D if D else '', rc, last, ' | '.join(ls[-4:])[-400:]),
+                                      {'harness': 'c11_trace', 'args': [ctx.seed, ncs, W, 0, D], 'case': last}))
                     if last is None:
                         break
                     start = int(last.split(' ')[1]) + 1
@@ -349,7 +354,7 @@ def run(ctx):
                         break
                 for x in lines:
                     if x.startswith('TIEFAIL'):
-                        r.hits.append(Hit('tie', 'C11:trace:attribution', x[:300], {'harness': 'c11_trace', 'args': [ctx.seed, ncs, W]}))
+                        r.hits.append(Hit('tie', 'C11:trace:attribution', x[:300], {'harness': 'c11_trace', 'args': [ctx.seed, ncs, W, 0, D]}))
                 ins = [x for x in lines if x.startswith('IN TR ')]
                 outs = [x for x in lines if x.startswith('OUT TR ')]
                 mouts = model(ins)
@@ -362,7 +367,7 @@ def run(ctx):
                     if not i_:
                         continue
                     p = i_.split(' ')
-                    r.count('trace:W=%s' % p[3])
+                    r.count('trace:W=%s' % p[3] if D == 0 else 'trace:second_pool=%d_behind_%d' % (W, D))
                     r.count('trace:throw=%s' % p[7].split(':')[0])
                     if int(p[3]) >= 2 and len(set(p[8].split(','))) >= 2:
                         r.nontrivial(i_[:300])
@@ -373,8 +378,9 @@ def run(ctx):
                         if sorted(int(x) for x in fin) != list(range(int(p[3]))) or f_['rem'] != '0':
                             m = ('countdown', 'tasks_remaining was decremented on behalf of workers %s, pool has %s workers' % (fin, p[3]))
                     if m:
-                        r.hits.append(Hit('monitor', 'C11:trace:' + m[0], 'real set_value on a real pool (W=%s n=%s throw=%s): %s' % (p[3], p[4], p[7], m[1]),
-                                          {'harness': 'c11_trace', 'args': [ctx.seed, ncs, W], 'case': i_[:2000], 'observed': o_[:2000]}))
+                        r.hits.append(Hit('monitor', 'C11:%s:%s' % (pre, m[0]), 'real set_value on a real pool%s (W=%s n=%s throw=%s): %s' % (
+                                              ' created through the resource partitioner behind a default pool of %d PUs' % D if D else '', p[3], p[4], p[7], m[1]),
+                                          {'harness': 'c11_trace', 'args': [ctx.seed, ncs, W, 0, D], 'case': i_[:2000], 'observed': o_[:2000]}))
                 for (k_, a, b) in diffs[:10]:
                     # first position where the site sequences differ = the first logged event that is not enabled in the model
                     fa, fb = fields(a) if a.startswith('OUT') else {}, fields(b) if b.startswith('OUT') else {}
@@ -382,11 +388,11 @@ def run(ctx):
                     pos = next((i for i, (x, y) in enumerate(zip(sa, sb)) if x != y), None)
                     why = ('event #%d (site %s) is not enabled in the model, which has that thread at site %s' % (pos, sa[pos], sb[pos])) if pos is not None else \
                         '; '.join('%s: impl %s model %s' % (q, fa.get(q, '?')[:120], fb.get(q, '?')[:120]) for q in ('calls', 'exits', 'thrown', 'sigs', 'fin', 'rem') if fa.get(q) != fb.get(q))
-                    r.hits.append(Hit('corr', 'C11:trace:correspondence',
+                    r.hits.append(Hit('corr', 'C11:%s:correspondence' % pre,
                                       'logged order of the real set_value/task_functions is not a run of the model (case %s): %s' % (imap.get(k_[1], '?')[:120], why[:600]),
-                                      {'harness': 'c11_trace', 'args': [ctx.seed, ncs, W], 'case': imap.get(k_[1], '')[:3000], 'impl': a[:3000], 'model': b[:3000]}))
+                                      {'harness': 'c11_trace', 'args': [ctx.seed, ncs, W, 0, D], 'case': imap.get(k_[1], '')[:3000], 'impl': a[:3000], 'model': b[:3000]}))
                 for i_ in ins[:1]:
-                    if W == 3:
+                    if W == 3 and D in (0, 2):
                         r.sample({'trace_input_and_logged_schedule': i_[:600], 'observed': [o[:600] for o in outs if o.split(' ')[2] == i_.split(' ')[2]][:1]})
 
     # ---------------------------------------------------------------- (c) end to end on the real pool
@@ -457,6 +463,64 @@ def run(ctx):
                     for x in obs[:2] + obs[6:8]:
                         r.sample({'end_to_end': x[:400]})
             r.extra['worker_counts'] = tcounts
+
+    # ---------------------------------------------------------------- (c2) end to end on pools of the resource partitioner
+    if only in (None, 'c11_pool'):
+        try:
+            h = ctx.build_harness('c11_pool', 'c11_pool.cpp')
+        except TieError as e:
+            h = None
+            r.hits.append(Hit('tie', 'C11:pool_harness', 'pool harness does not compile against the source: %s' % str(e)[-700:],
+                              {'harness': 'c11_pool'}))
+        if h:
+            import random
+            rnd = random.Random(ctx.seed * 9176 + 3)
+            pols = ['local-priority-fifo', 'local-priority-lifo', 'static-priority', 'local', 'static', 'abp-priority-fifo', 'abp-priority-lifo']
+            if quick:
+                cfgs = [(D, S, rnd.choice(pols), 45) for (D, S) in ((1, 2), (1, 3), (2, 2), (2, 3))]
+            else:
+                cfgs = [(D, S, pol, 150) for (D, S) in ((1, 2), (1, 3), (2, 2), (2, 3)) for pol in pols]
+            for (D, S, pol, per) in cfgs:
+                lines, hung, crashed = run_restart(h, [ctx.seed], per, [D, S, pol], 600 if quick else 3000, max_restarts=3)
+                runs = {x.split(' ')[2]: x for x in lines if x.startswith('RUN POOL ')}
+                obs = [x for x in lines if x.startswith('OBS POOL ')]
+                args = [ctx.seed, per, 0, D, S, pol]
+                for x in lines:
+                    if x.startswith('TIEFAIL'):
+                        r.hits.append(Hit('tie', 'C11:pool:setup', x[:300], {'harness': 'c11_pool', 'args': args}))
+                if crashed:
+                    rl = runs.get(str(crashed[1]), '?')
+                    r.hits.append(Hit('monitor', 'C11:pool:crash',
+                                      'bulk on a pool of the resource partitioner (default %d PUs, second pool %d PUs, %s) crashed (rc=%s) in/after [%s]: %s'
+                                      % (D, S, pol, crashed[0], rl, crashed[2]), {'harness': 'c11_pool', 'args': args, 'case': rl}))
+                for x in obs:
+                    o = fields(x)
+                    r.evaluations += 1
+                    if o.get('hang') == '1':
+                        r.hits.append(Hit('monitor', 'C11:pool:no_completion',
+                                          'bulk(%s n=%#x, W=%s, pred=%s, throw=%s) on pool %s (default %d PUs + second pool %d PUs, %s) did not complete within '
+                                          'the watchdog time (%s calls made)' % (o['type'], int(o['n'], 16), o['W'], o['pred'], o['throw'], o['pool'], D, S, pol, o['calls']),
+                                          {'harness': 'c11_pool', 'args': args, 'case': runs.get(x.split(' ')[2])}))
+                        continue
+                    r.count('pool:layout=%d+%d' % (D, S))
+                    r.count('pool:policy=' + pol)
+                    r.count('pool:pred=%s' % o['pred'])
+                    r.count('pool:throw=%s' % o['throw'].split(':')[0])
+                    r.count('pool:set_value_on=%s.%s' % (o['pool'], o['sv_local']))
+                    if o['sv_global'] != o['sv_local']:
+                        r.count('pool:set_value_on_worker_with_global_ne_local')
+                    if int(o.get('offpool', '0')):
+                        r.count('pool:calls_on_a_worker_of_another_pool', int(o['offpool']))
+                    if int(o['n'], 16) > int(o['W']) and o['sv_global'] != o['sv_local']:
+                        r.nontrivial('pool %d+%d %s/%s' % (D, S, pol, runs.get(x.split(' ')[2], x)))
+                    m = e2e_monitor(o)
+                    if m:
+                        r.hits.append(Hit('monitor', 'C11:pool:' + m[0].split(':')[0],
+                                          'pool %s of layout default %d PUs + second pool %d PUs (%s), set_value on local worker %s (global %s): %s'
+                                          % (o['pool'], D, S, pol, o['sv_local'], o['sv_global'], m[1]),
+                                          {'harness': 'c11_pool', 'args': args, 'case': runs.get(x.split(' ')[2]), 'observed': x}))
+                for x in obs[:1]:
+                    r.sample({'bulk_on_partitioner_pool': x[:420]}, cap=10)
     r.notes.append('shapes beyond 2^31: arithmetic for all of them; executed end to end: 2^31+1 and 2^32+5 with a cheap f '
                    '(quick tier, largest worker count) and all of them with an f that always throws')
     return r
